@@ -80,6 +80,7 @@ pub struct Outcome {
     pub client_events_other: u64,
     pub server_events_other: u64,
     pub handle_input_calls: u64,
+    pub largest_input_call: u64,
     pub all_c2s: Vec<u8>,
     pub all_s2c: Vec<u8>,
     pub keep_wire: bool,
@@ -425,6 +426,7 @@ pub fn run_scenario(sc: &Scenario, rng: &mut Rng, keep_wire: bool) -> Outcome {
         // the network never fragments below 32 bytes in that configuration.
         let n = if tiny_window { n.max(32).min(avail) } else { n };
         o.handle_input_calls += 1;
+        o.largest_input_call = o.largest_input_call.max(n as u64);
         if to_server {
             let piece: Vec<u8> = c2s.drain(..n).collect();
             match lib!(sclock, "ServerSession::handle_input", server.handle_input(&piece)) {
